@@ -568,3 +568,61 @@ def r11e(ctx):
                 ctx.ok(cid, fio.module.loc(sub), "absolute partition numbers index the unfiltered divisions")
             else:
                 ctx.bad(cid, fio.module.loc(sub), f"`{ast.unparse(sub)}`: the buckets hold ABSOLUTE partition numbers of the wrapped source, but `{bt}` is its filtered view (only the selected partitions): with a partition selection that is not a leading block the wrong division is read or the index runs off the end")
+
+
+def _drops_self(v):
+    """the returned expression is built from parts of self (self.frame, self.<operand>) and never contains self as a node"""
+    uses = [n for n in ast.walk(v) if isinstance(n, ast.Name) and n.id == "self"]
+    if not uses:
+        return False
+    for n in uses:
+        par = getattr(n, "_parent", None)
+        if not isinstance(par, ast.Attribute):
+            return False  # self passed whole / type(self)
+        if par.attr in ("operands", "substitute", "substitute_parameters", "_name"):
+            return False
+        gp = getattr(par, "_parent", None)
+        if isinstance(gp, ast.Call) and gp.func is par:
+            return False  # self.method(...) - the method may keep self
+    return True
+
+
+@rule(
+    "R11f",
+    ["C11", "C06", "C01"],
+    """A SELECTION IS NOT SKIPPED: a rewrite rule that replaces `parent(self)` by something built on the inputs of self - dropping
+    self from the plan (reductions moved below a shuffle, a length answered from the input) - is inherited by the classes that
+    carry a partition selection (`_partitions`). For them it is only valid when nothing is selected: the rule must be guarded by
+    `self._filtered` being false, otherwise the reduction / length of a selection is computed over the whole input.""",
+)
+def r11f(ctx):
+    model = ctx.model
+    pf = _pf(model)
+    n = 0
+    seen = set()
+    for c in model.subclasses(pf, strict=True):
+        for mname in ("_simplify_up", "_simplify_down"):
+            mem = c.provider(mname)
+            if mem is None or mem.cls is model.core_expr or not isinstance(mem.node, ast.FunctionDef) or id(mem.node) in seen:
+                continue
+            fn = mem.node
+            early_refusal = [st for st in ast.walk(fn) if isinstance(st, ast.If) and "_filtered" in ast.unparse(st.test) and flow.terminates(st.body) and all(isinstance(x, ast.Return) and (x.value is None or (isinstance(x.value, ast.Constant) and x.value.value is None)) for x in st.body)]
+            for i, p in enumerate(flow.returns(fn)):
+                v = p.stmt.value
+                if v is None or (isinstance(v, ast.Constant) and v.value is None):
+                    continue
+                if not _drops_self(v):
+                    continue
+                # only rules about a parent that aggregates rows / answers lengths matter: the returned value re-applies the parent
+                if mname == "_simplify_up" and "parent" not in names_in(v):
+                    continue
+                seen.add(id(fn))
+                n += 1
+                cid = f"{mem.cls.qual}.{mname}#return{i}:selection-skipped"
+                guarded = any((not pol) and "_filtered" in ast.unparse(t) for t, pol in flow.facts(p)) or any(any(st is x for x in p.preceding) for st in early_refusal)
+                heirs = [k.name for k in model.subclasses(pf, strict=True) if k.provider(mname) is not None and k.provider(mname).node is fn]
+                if guarded:
+                    ctx.ok(cid, mem.cls.module.loc(p.stmt), "not applied to an expression with a partition selection")
+                else:
+                    ctx.bad(cid, mem.cls.module.loc(p.stmt), f"`return {unparse(v)[:90]}` drops this node from the plan and is inherited by {heirs[:4]}, which can carry a partition selection: without a `not self._filtered` guard the parent is evaluated over all partitions of the input instead of the selected ones")
+    ctx.floor("self-dropping rules reachable from a partition-filtered class", n, 1)
